@@ -29,7 +29,7 @@ A("C01", "enum", "bounded-exhaustive enumeration of grammar-generated queries x 
 A("C02", "enum", "bounded-exhaustive enumeration of (text, pattern, flags) on the real matchers against a brute-force witness search",
   "Every text up to length 4 (quick) / 6 (thorough) over a 10-symbol alphabet (one symbol per character class) x every admissible pattern <= 3 x case/normalise/direction/"
   "representation/slab/position variants x all 7 matchers x 3 schemes; each reported match is checked to be a genuine witness and each non-match against a brute-force search; "
-  "plus a threshold family of long lines around every size limit in the code.",
+  "plus a threshold family of long lines around every size limit in the code, and one non-ASCII character at every offset of lines of length 1..36 (word-wise ASCII detection).",
   "DESIGN.md section 2, C02", "trusts the normalisation table and Go's unicode tables; lengths beyond the bound only at the thresholds")
 A("C03", "enum", "bounded-exhaustive enumeration against a naive whole-line evaluation of the documented recurrence and a brute-force best alignment",
   "All texts <= 4/5 over 11 symbols x patterns <= 3 x folding x direction x representation x 3 schemes: V2 score == naive recurrence and <= best existing alignment; V1 / exact / prefix / "
@@ -40,16 +40,18 @@ A("C04", "enum", "bounded-exhaustive enumeration of lists x tiebreak lists x sor
   "4 queries, all probe permutations for <= 5 matches: Get(0..n-1) is exactly the global stable sort under an independent comparator.",
   "DESIGN.md section 2, C04", "rank key formulas other than score/length slots are taken as given; scheduler layer for scan is part of C13/C08 machinery")
 A("C05", "enum", "bounded-exhaustive enumeration of call histories on one scratch slab, poisoned slabs, representations and position flags",
-  "All ordered pairs (and triples over a core) of matcher calls on a shared slab; every case on 8 poisoned slabs; bytes vs runes; positions on/off: results must equal the fresh nil-slab result. "
+  "All ordered pairs (and triples over a core) of matcher calls on a shared slab; every case on 8 poisoned slabs; bytes vs runes; positions on/off: results must equal the fresh nil-slab result; "
+  "two-step pattern histories on one Item (token cache) and ordered pairs of long-line cases on one standard slab. "
   "One known finding (D11, V2 Start without positions).",
   "DESIGN.md section 2, C05", "a fresh call with a nil slab is the reference value")
 A("C06", "enum", "bounded-exhaustive enumeration of byte streams x every delivery (read sizes, empty reads, end kinds) on the real Reader.feed and ChunkList",
   "All streams <= 8/9 bytes over {a, other-delimiter, delimiter} x every way the environment may answer each Read (three scaled buffer configurations), real 64K/128K constants with deviation-bounded "
-  "short reads at the boundaries, all push/snapshot(tail) sequences <= 14: records == split(stream), unaltered after the last read, snapshots immutable.",
+  "short reads at the boundaries, all push/snapshot(tail) sequences <= 14: records == split(stream), unaltered after the last read, snapshots immutable; "
+  "reader/loader schedules (engine sched), CLI record layers and interactive header records around the reader's buffer sizes.",
   "DESIGN.md section 2, C06", "environment model: (n>0,nil)* then (0,EOF)|(0,err); (n>0,EOF) excluded as unreachable from a descriptor")
 A("C07", "ptydrive", "exhaustive enumeration of record lists x framing options (filter mode) and selection histories x terminal events (interactive, real binary under a pty)",
   "50k filter processes (<= 2-3 records from a 10-record pool x read0/print0/ansi/print-query/no-sort/with-nth) compared byte-wise; 6k interactive sessions: selection histories <= 2-3 x "
-  "11 terminal events x multi/print0/print-query/expect/accept-nth/with-nth; --select-1/--exit-0; malformed command lines exit 2.",
+  "11 terminal events x multi/print0/print-query/expect/accept-nth/with-nth; select / deselect / select-again families; --select-1/--exit-0; malformed command lines exit 2.",
   "DESIGN.md section 2, C07", "matching is C01's business (queries '', one letter, no match); selection state brought into agreement with the C09 model first")
 A("C08", "enum", "explicit-state BFS over query-edit / sort / input histories against shared caches on the real Matcher (Reset/Loop)",
   "All event histories of depth 4 (quick) / 5 (thorough) over 25 events (typing operators, deleting, clear, toggle-sort, exclude, more input, end of input), deduplicated on the state sequence; "
@@ -60,7 +62,7 @@ A("C09", "ptydrive", "explicit-state BFS over action histories on the real binar
   "non-initial start states, and accept output.",
   "DESIGN.md section 2, C09", "match lists come from fzf --filter; deduplication key is the model's complete state; eventual agreement with 10 s deadline and 5x confirmation")
 A("C10", "enum", "bounded-exhaustive enumeration of lines x delimiters x range expressions against a loop-based tokenizer and the man-page range table",
-  "All lines <= 6/7 over 6 symbols x 6 delimiters x 73 ranges (+196 lists); ParseRange on all strings <= 5/7; --nth matching with witness offsets in the full line; with-nth/accept-nth templates and "
+  "All lines <= 6/7 over 7 symbols x 6 delimiters x 73 ranges (+196 lists); ParseRange on all strings <= 5/7; --nth matching with witness offsets in the full line; with-nth/accept-nth templates and "
   "placeholders; a CLI layer.", "DESIGN.md section 2, C10", "documented quirks pinned as assumptions in the evidence")
 A("C11", "enum", "bounded-exhaustive enumeration of byte strings and grammar-generated text/sequence interleavings against the documented regex and an independent SGR interpreter",
   "All byte strings <= 5/6 over 20 symbols and OSC bodies <= 6/7; interleavings of <= 3 text chunks and <= 3 sequences from an 81-entry catalogue from every carried state of a 2-line history.",
@@ -69,11 +71,11 @@ A("C12", "enum", "bounded-exhaustive enumeration of shell-hostile texts x placeh
   "All strings <= 3 over 26 symbols (+ <= 4 over the 8 most dangerous) x 67 (world, template) pairs: argv reported by the shells == original items; {f} files; tmux re-launch quoting.",
   "DESIGN.md section 2, C12", "dash and bash define 'a POSIX shell evaluates'; fish branch structural only (fish not installed)")
 A("C13", "sched", "stateless DFS over all interleavings with a deviation bound under a controlled scheduler on the rewritten real sources (+ separate free-running -race pass)",
-  "Five scenarios (snapshot isolation with/without --tail, cancellation incl. Matcher.Loop, cache under concurrent partitions, event box, reader/poller/consumer), every schedule with <= 2-4 "
+  "Eight scenarios (snapshot isolation with/without --tail, older snapshots held across later ones, two concurrent loaders, cancellation incl. Matcher.Loop and slab hand-over, cache under concurrent partitions, event box, reader/poller/consumer), every schedule with <= 2-4 "
   "deviations (quick) / 3-6 (thorough); published results == sequential filter of the snapshot; no deadlock / lost wake-up. Race pass: known finding D6.",
   "DESIGN.md section 2, C13", "scheduling points = sync/atomic/channel/time operations of six rewritten files; sequential consistency; the race pass is a sample by construction")
 A("C16", "enum", "bounded-exhaustive enumeration of request token sequences x write splits x end modes on the real handleHttpRequest / startHttpServer",
-  "All token sequences <= 4/5 over 19 tokens x {key, no key} x 3 end modes; every 2-write split and truncation point; 1.1k-1.7k action bodies vs parseKeymap; loopback wire layer.",
+  "All token sequences <= 4/5 over 19 tokens x {key, no key} x 3 end modes; every 2-write split and truncation point; 1.1k-1.7k action bodies vs parseKeymap; loopback wire layer; GET limit/offset boundary values against the real binary's state dump.",
   "DESIGN.md section 2, C16", "requests that terminate fzf may lose their response (exit wins): out of scope of 'every request gets an answer'")
 A("C17", "enum", "bounded-exhaustive enumeration of argument vectors from the live option vocabulary and of bind strings from the key/action grammar",
   "202 option names x 126 values x 3 spellings (also via env and options file), all ordered pairs of accepted vectors (args-over-env composition), last-wins, all 134 action names, "
@@ -82,18 +84,19 @@ A("C18", "enum", "explicit-state BFS over chains of sessions (load, navigate/edi
   "Chains of <= 3 sessions x <= 4/5 navigation steps x 6 endings x sizes {1,2,3} x 8-11 initial files, deduplicated on (file bytes, lines, modified, cursor, input).",
   "DESIGN.md section 2, C18", "in-package; the process layer is not built")
 A("C19", "enum", "bounded-exhaustive enumeration of directory trees x walker option sets x skip lists against an os.ReadDir reference walker",
-  "All trees <= 4/5 nodes, depth <= 3, 4 names, 7 node kinds x 12 option sets x 6 skip lists x root forms; multiset comparison.",
+  "All trees <= 4/5 nodes, depth <= 3, 4 names, 7 node kinds x 12 option sets x 6 skip lists x root forms; multiset comparison; root spellings (.., //, /./, through symlinked directories) must list the same entries.",
   "DESIGN.md section 2, C19", "hidden governs directories (man page); symlink-loop rule as fastwalk")
 A("C20", "ptydrive", "exhaustive enumeration of event sequences x preview duration classes x hook modes on the real binary (-tags verif), gate scripts decide when previews finish",
-  "All event sequences <= 2/3 over 11 events (moves, edits, toggle, refresh/toggle/change-preview, release, 600 ms, hook release) x 4 duration classes x 3 hook modes: last started preview == "
+  "All event sequences <= 2/3 over 11 events (moves, edits, toggle, refresh/toggle/change-preview, release, 600 ms, hook release) x 4 duration classes x 3 hook modes x session variants (template with / without {q}, focus binding): last started preview == "
   "(item, query, selection); pane shows it; <= 1 alive; none after exit. Known finding D5.", "DESIGN.md section 2, C20",
   "cursor/query/selection follow the C09 model; quiescence = 1.2 s of stability past fzf's 500 ms grace timers")
 A("C14", "ptydrive", "exhaustive enumeration of window sizes x option sets (robustness), of input byte strings (decoder), and of exit path x running child x instant (exit hygiene) on the real binary",
   "44-98 window sizes from 1x1 x 78-540 option sets x adversarial input x a 17-action script with resizes; every byte string <= 3/4 over 16 decoder symbols; 145+ exit sessions: "
-  "{accept, abort, SIGTERM, SIGINT} x {nothing, preview, execute-silent, execute, reload, transform} x child class x instant (delays and held hook points): alive and answering, no panic, "
+  "{accept, abort, SIGTERM, SIGINT} x {nothing, preview, execute-silent, execute, reload, transform} x child class x instant (delays, held hook points, after a real CTRL-Z / continue cycle under a job-control parent); SGR mouse interactions over a 42-point grid: alive and answering, no panic, "
   "termios and DEC modes restored, TMPDIR empty, no process left. Known finding D15.",
   "DESIGN.md section 2, C14", "hang = no answer within 30 s confirmed 5x; SIGINT during execute belongs to the child (documented); emulator trusted")
 A("C15", "ptydrive", "exhaustive enumeration of action histories x layouts x sizes on the real binary: incremental redraw == forced full redraw (differential), plus a structural oracle against GET /",
-  "Histories <= 2/3 over 19 actions (moves, selection, typing, header/wrap/prompt/sort toggles, resize) x 24-36 configurations (3 layouts x sizes x plain/inline/border/header-lines).",
+  "Histories <= 2/3 over 20 actions (moves, selection, typing, header/wrap/prompt/sort toggles, reload, resize) x 24-36 configurations (3 layouts x sizes x plain/inline/border/header-lines/header-first); "
+  "only the last action of a history is judged (the forced redraw perturbs the row cache).",
   "DESIGN.md section 2, C15", "--no-scrollbar; ASCII items; emulator trusted; structural item-row checks are skipped while wrapping is on")
 
